@@ -22,7 +22,8 @@ func (self ValueRange) Display() (string, *Interrupt) {
 
 func (self ValueRange) IsEqual(other Value) (bool, *Interrupt) {
 	otherRange := other.(ValueRange)
-	return *self.Start == *otherRange.Start && *self.End == *otherRange.End, nil
+	return *self.Start == *otherRange.Start && *self.End == *otherRange.End &&
+		self.EndIsInclusive == otherRange.EndIsInclusive, nil
 }
 
 func (self ValueRange) Fields() (map[string]*Value, *Interrupt) {
